@@ -38,3 +38,12 @@ def coarse_memo(ellipsoid_inversef, lat):
     if 'f' not in _memo:
         _memo['f'] = 1.0 / ellipsoid_inversef
     return _memo['f'] * lat
+
+
+_one = [0.0]
+
+
+def one_line_race(x):
+    # write and read of shared state on ONE source line: only instruction-level pre-emption splits it
+    _one[0] = x; y = _one[0]
+    return y * 2.0
